@@ -4,6 +4,8 @@ package main
 // which certificate content every SNI name must be served with.
 
 import (
+	"verif/harness/lib/fakehaproxy"
+
 	"crypto/sha256"
 	"crypto/tls"
 	"crypto/x509"
@@ -401,4 +403,19 @@ func (v *view) expectGateway(name string) (expectation, bool) {
 	sort.Strings(e.Allowed)
 	e.Content = v.defContent
 	return e, true
+}
+
+// runningContent: the content of the pem file of a valid secret in the form the simulated
+// process holds it (fakehaproxy.CanonPEM), hashed as selection() does.
+func (v *view) runningContent(full string) (string, bool) {
+	i := strings.Index(full, "/")
+	o, ok := v.c.objs["Secret|"+full[:i]+"|"+full[i+1:]]
+	if !ok {
+		return "", false
+	}
+	crt, key := secretData(o)
+	if !validPair(crt, key) {
+		return "", false
+	}
+	return canonHash(fakehaproxy.CanonPEM(string(crt) + "\n" + string(key))), true
 }
